@@ -298,9 +298,26 @@ func (ad *Advertisement) VerifySignature() (peer.ID, error) {
 		seenTopLevelProv := false
 		for _, p := range ad.ExtendedProvider.Providers {
 
-			_, err = record.ConsumeTypedEnvelope(p.Signature, rec)
+			epEnvelope, err := record.ConsumeTypedEnvelope(p.Signature, rec)
 			if err != nil {
 				return "", err
+			}
+
+			// The entry must be signed by the identity it names; the main
+			// provider's entry is signed by the signer of the advertisement.
+			epSignerID, err := peer.IDFromPublicKey(epEnvelope.PublicKey)
+			if err != nil {
+				return "", fmt.Errorf("cannot convert public key to peer ID: %w", err)
+			}
+			expectSignerID := signerID
+			if p.ID != ad.Provider {
+				expectSignerID, err = peer.Decode(p.ID)
+				if err != nil {
+					return "", fmt.Errorf("cannot decode extended provider ID: %w", err)
+				}
+			}
+			if epSignerID != expectSignerID {
+				return "", errors.New("extended provider signature not made by that provider")
 			}
 
 			// Calculate our signature payload
